@@ -36,6 +36,7 @@ type Config struct {
 	Stubs         []string
 	Outside       []string
 	NoNative      bool
+	MaxTicks      int // how many times a periodic timer (ticker) may fire on one path
 	LazyFP        bool
 	NumTokens     bool // %d of a symbolic integer yields a one-element decimal-number token
 	FPAbstract    map[string]bool // float operations replaced by an arbitrary result (mul, div, sqrt, pow)
